@@ -283,6 +283,13 @@ def run(ctx):
         want = "self.sel" if B.entails(G, B.A("status.first")) else "sel_ongoing"
         ok = a.v == want and (B.entails(G, B.A("status.first")) or B.entails(G, B.Not(B.A("status.first"))))
         ctx.ob("P3", PACKET, "Dispatcher", f"sel <= {want}", ok, "" if ok else f"sel <= {a.v} under {B.show(G)}", a.line)
+    # the latch and the effective selector hold copies of self.sel (binary or one-hot, whichever was asked for): as wide as self.sel
+    dcls = ctx.mod(PACKET).classes["Dispatcher"]
+    for reg in ("sel_ongoing", "sel"):
+        ok, txt = q.holds_copy_of(fxd, dcls, reg, "self.sel")
+        ctx.ob("P3", PACKET, "Dispatcher", f"{reg} is as wide as self.sel", ok,
+               "" if ok else f"{reg} = {txt} holds a copy of self.sel, which is declared differently (one bit per slave when one_hot): the latched "
+                             f"destination is truncated, the rest of a packet goes to another slave or is drained", fxd.decl[reg][1] if reg in fxd.decl else 0)
     st = [i for i in fxd.insts if i.cls == "Status" and i.call is not None and i.call.args]
     ok = bool(st) and norm(st[0].call.args[0]) == "master"
     ctx.ob("P3", PACKET, "Dispatcher", "Status tracks the master stream", ok, "" if ok else "Status is not built on master")
